@@ -119,6 +119,13 @@ func main() {
 			fmt.Println("variable-index proven", vp, "unproven", vu)
 			return
 		}
+		if *dump == "encstate" {
+			c := &Ctx{P: p, R: newReport("dump", "quick", 0)}
+			for _, w := range encoderFieldWrites(c) {
+				fmt.Printf("%-30s %-24s in %-45s %s\n", w.typ, w.field, funcKey(w.fn), p.pos(w.pos))
+			}
+			return
+		}
 		if *dump == "ta" {
 			c := &Ctx{P: p, R: newReport("dump", "quick", 0)}
 			for _, fn := range c.moduleFuncs() {
